@@ -149,8 +149,9 @@ class LanDevice:
         self.buffers[tr.cid] = b""
 
     def _respond_soon(self, tr, packets):
-        for p in packets:
-            self.loop.call_soon(tr.feed, p)
+        # a (virtual) half millisecond of network latency: the answer arrives when the client is already waiting for it, as on a real network
+        # (all packets of one reply within the same instant, each as its own segment)
+        self.loop.call_later(0.0005, lambda: [tr.feed(p) for p in packets])
 
     # -- packet handling ---
     def on_bytes(self, tr, data):
